@@ -65,51 +65,47 @@ Example C19_same_schedule_now :
   all_doneb w = true /\ objects_of 7 w = [0] /\ visible_tracks 7 w = [10; 11].
 Proof. vm_compute. repeat split. Qed.
 
-(** (iii) C19_lockset on the regenerated tables. segmentTimelineGenerator is only touched by its
-    channel's goroutine: no pair. Receiver and channel: exactly the known unprotected pairs below
-    (each is a finding; a new pair makes this fail). *)
+(** (iii) C19_lockset on the regenerated tables: no unprotected conflicting pair is left in Receiver
+    (streams under Receiver.mu since 575415d), channel (trDatas / masterTrName through accessors under
+    ch.mu since 02a73b9, the MPD and startTime under ch.mpdMu since b9f2d4d, the master values under
+    ch.mu since 2922a35) and segmentTimelineGenerator (only touched by its channel's goroutine).
+    channel and segmentTimelineGenerator belong to one channel goroutine each ([multi_handler]).
+    A new unprotected pair makes these fail. *)
+Theorem C19_lockset_receiver : races_known Access.Receiver [] = true.
+Proof. vm_compute. reflexivity. Qed.
+Print Assumptions C19_lockset_receiver.
+
+Theorem C19_lockset_channel : races_known_h Access.channel [] = true.
+Proof. vm_compute. reflexivity. Qed.
+Print Assumptions C19_lockset_channel.
+
 Theorem C19_lockset_timelinegen : races_known_h Access.segmentTimelineGenerator [] = true.
 Proof. vm_compute. reflexivity. Qed.
 Print Assumptions C19_lockset_timelinegen.
 
-Definition C19_known_receiver_races : list kpair :=
-  [("streams[]", ("Receiver.SegmentHandlerFunc", "R:handler:[]"), ("Receiver.SegmentHandlerFunc", "W:handler:[]"));
-   ("streams[]", ("Receiver.SegmentHandlerFunc", "W:handler:[]"), ("Receiver.SegmentHandlerFunc", "W:handler:[]"))].
+(** hence, in every schedule, any two conflicting accesses to a field of these structs are ordered by
+    happens-before *)
+Theorem C19_receiver_race_free :
+  forall tr, valid multi_all Access.Receiver tr ->
+  forall pre mid post t1 a1 t2 a2,
+    tr = pre ++ EAcc t1 a1 :: mid ++ EAcc t2 a2 :: post ->
+    t1 <> t2 -> a_field a1 = a_field a2 -> a_write a1 || a_write a2 = true ->
+    hb tr (length pre) (length pre + 1 + length mid).
+Proof. exact (races_known_nil_race_free Access.Receiver C19_lockset_receiver). Qed.
+Print Assumptions C19_receiver_race_free.
 
-Theorem C19_lockset_receiver : races_known Access.Receiver C19_known_receiver_races = true.
-Proof. vm_compute. reflexivity. Qed.
-Print Assumptions C19_lockset_receiver.
+Theorem C19_channel_race_free :
+  forall tr, valid multi_handler Access.channel tr ->
+  forall pre mid post t1 a1 t2 a2,
+    tr = pre ++ EAcc t1 a1 :: mid ++ EAcc t2 a2 :: post ->
+    t1 <> t2 -> a_field a1 = a_field a2 -> a_write a1 || a_write a2 = true ->
+    hb tr (length pre) (length pre + 1 + length mid).
+Proof. exact (lockset_race_free_gen multi_handler Access.channel (races_known_h_nil Access.channel C19_lockset_channel)). Qed.
+Print Assumptions C19_channel_race_free.
 
-Definition C19_known_channel_races : list kpair :=
-  [("masterSegDuration", ("Receiver.SegmentHandlerFunc", "R:handler:[]"), ("channel.receivedSegData", "W:chan:[]"));
-   ("masterSeqNrShift", ("Receiver.SegmentHandlerFunc", "R:handler:[]"), ("channel.receivedSegData", "W:chan:[L:mu]"));
-   ("masterTimeShift", ("Receiver.SegmentHandlerFunc", "R:handler:[]"), ("channel.receivedSegData", "W:chan:[L:mu]"));
-   ("masterTimescale", ("Receiver.SegmentHandlerFunc", "R:handler:[]"), ("channel.receivedSegData", "W:chan:[L:mu]"));
-   ("masterTrName", ("channel.addTrData", "W:handler:[L:mu]"), ("channel.receivedSegData", "R:chan:[]"));
-   ("maxNrBufSegs", ("Receiver.SegmentHandlerFunc$closure", "R:handler:[]"), ("channel.receivedSegData", "W:chan:[]"));
-   ("startTime", ("channel.addInitDataAndUpdateTimescale", "R:handler:[]"), ("channel.addInitDataAndUpdateTimescale", "W:handler:[]"));
-   ("startTime", ("channel.addInitDataAndUpdateTimescale", "W:handler:[]"), ("channel.addInitDataAndUpdateTimescale", "W:handler:[]"));
-   ("startTime", ("channel.addInitDataAndUpdateTimescale", "W:handler:[]"), ("segmentTimelineGenerator.generateSegmentTimelineNrMPD", "R:chan:[]"));
-   ("trDatas[]", ("Receiver.SegmentHandlerFunc", "R:handler:[]"), ("Receiver.SegmentHandlerFunc", "W:handler:[]"));
-   ("trDatas[]", ("Receiver.SegmentHandlerFunc", "R:handler:[]"), ("channel.addTrData", "W:handler:[L:mu]"));
-   ("trDatas[]", ("Receiver.SegmentHandlerFunc", "W:handler:[]"), ("Receiver.SegmentHandlerFunc", "W:handler:[]"));
-   ("trDatas[]", ("Receiver.SegmentHandlerFunc", "W:handler:[]"), ("Receiver.SegmentHandlerFunc$closure", "R:handler:[]"));
-   ("trDatas[]", ("Receiver.SegmentHandlerFunc", "W:handler:[]"), ("channel.addTrData", "R:handler:[L:mu]"));
-   ("trDatas[]", ("Receiver.SegmentHandlerFunc", "W:handler:[]"), ("channel.addTrData", "W:handler:[L:mu]"));
-   ("trDatas[]", ("Receiver.SegmentHandlerFunc", "W:handler:[]"), ("channel.deriveAndSetBitrates", "R:chan:[]"));
-   ("trDatas[]", ("Receiver.SegmentHandlerFunc", "W:handler:[]"), ("channel.deriveAndSetFrameRates", "R:chan:[]"));
-   ("trDatas[]", ("Receiver.SegmentHandlerFunc", "W:handler:[]"), ("channel.receivedSegData", "R:chan:[]"));
-   ("trDatas[]", ("Receiver.SegmentHandlerFunc", "W:handler:[]"), ("channel.receivedSegData", "R:chan:[L:mu]"));
-   ("trDatas[]", ("Receiver.SegmentHandlerFunc$closure", "R:handler:[]"), ("channel.addTrData", "W:handler:[L:mu]"));
-   ("trDatas[]", ("channel.addTrData", "W:handler:[L:mu]"), ("channel.deriveAndSetBitrates", "R:chan:[]"));
-   ("trDatas[]", ("channel.addTrData", "W:handler:[L:mu]"), ("channel.deriveAndSetFrameRates", "R:chan:[]"));
-   ("trDatas[]", ("channel.addTrData", "W:handler:[L:mu]"), ("channel.receivedSegData", "R:chan:[]"))].
-
-Theorem C19_lockset_channel : races_known_h Access.channel C19_known_channel_races = true.
-Proof. vm_compute. reflexivity. Qed.
-Print Assumptions C19_lockset_channel.
-
-(** the known lists are not vacuous: these pairs are in the regenerated tables *)
-Example C19_races_present :
-  lenZ (race_pairs Access.Receiver) = 2 /\ lenZ (race_pairs_gen multi_handler Access.channel) = 23.
-Proof. vm_compute. split; reflexivity. Qed.
+(** non-vacuity: the tables are not empty, handlers do write these structs (under locks) *)
+Example C19_tables_nonempty :
+  existsb (fun a => a_write a && role_eqb (a_role a) RHandler) Access.Receiver = true /\
+  existsb (fun a => a_write a && role_eqb (a_role a) RHandler) Access.channel = true /\
+  existsb (fun a => a_write a && role_eqb (a_role a) RChan) Access.channel = true.
+Proof. vm_compute. repeat split. Qed.
